@@ -373,6 +373,9 @@ def check_cipher(ck, mod, f, label, rulemap):
             name = "tail%d" % r
         seen.add(r)
         outs = mode.outs_of(p)
+        # a store that writes back the value the location already holds (x ^= 0 ...) changes nothing the round trip or the
+        # construction can observe; that it is a write at all (const input buffer) is C06's R-C06-CONST
+        outs = {k_: v_ for k_, v_ in outs.items() if k_[0] == out_cur or list(v_) != mode.inbyte(k_[0], k_[1])}
         # ---- data segment
         data_ev = [e for e in P]
         segP = [e for e in P if True]
